@@ -147,6 +147,7 @@ type Op struct {
 	Perm   []int  `json:"perm,omitempty"`   // cert local: order in which operators are picked as signers
 	Upto   string `json:"upto,omitempty"`   // local: proposal | prepare | commit
 	Reopen bool   `json:"reopen,omitempty"` // restart: close and re-open the database (disk cases only)
+	Probe  bool   `json:"probe,omitempty"`  // restart: then StartNewDuty at (restored height + D)
 }
 
 type Prog struct {
@@ -428,14 +429,28 @@ func run(p Prog) *prog.Result {
 
 	// reference model
 	hasFloor, floor := false, uint64(0) // highest slot started or height learnt decided; after restart: persisted height
+	// everSeen/everMax: highest slot started or height learnt decided in the whole program, restarts included. Only a
+	// decision at or above it is demanded to become the durable highest instance (see assumptions: a decision learnt
+	// for a height below one that was already started is saved as highest "only if height >= current height").
+	everSeen, everMax := false, uint64(0)
+	everDecided, everDecidedMax := false, uint64(0)
 	raise := func(h uint64) {
 		if !hasFloor || h > floor {
 			hasFloor, floor = true, h
 		}
+		if !everSeen || h > everMax {
+			everSeen, everMax = true, h
+		}
 	}
+	decidedAt := func(h uint64) {
+		if !everDecided || h > everDecidedMax {
+			everDecided, everDecidedMax = true, h
+		}
+	}
+	topmost := func(h uint64) bool { return !everSeen || h >= everMax }
 	atOrBelow := func(h uint64) bool { return hasFloor && h <= floor }
-	restarted := false            // a restart happened and restored a decided height
-	restoredHeight := uint64(0)   // the height restored by the last such restart
+	restarted := false                            // a restart happened and restored a decided height
+	restoredHeight := uint64(0)                   // the height restored by the last such restart
 	decidedRounds := map[uint64]map[uint64]bool{} // height -> rounds a certificate was delivered / decided for
 	prev := e.observe()
 	cursor := p.Base
@@ -455,8 +470,8 @@ func run(p Prog) *prog.Result {
 		return uint64(s)
 	}
 
-	// judgeStore applies the store clauses after a step. learnt = height of a decision learnt in this step that is
-	// at or above everything started or decided before (it must now be the durable highest instance), or -1.
+	// judgeStore applies the store clauses after a step. mustHold = height of a decision learnt in this step that is
+	// at or above everything ever started or decided (it must now be the durable highest instance), or -1.
 	judgeStore := func(step int, what string, mustHold int64) *prog.Result {
 		cur := e.observe()
 		defer func() { prev = cur }()
@@ -481,41 +496,48 @@ func run(p Prog) *prog.Result {
 			}
 		}
 		if mustHold >= 0 && (!cur.present || cur.height != uint64(mustHold)) {
-			return fail(res, e, "C15:highest-decision-not-persisted", "step %d (%s): a decision for height %d, at or above every height started or decided so far, was learnt but the stored highest instance is %v", step, what, mustHold, cur)
+			return fail(res, e, "C15:highest-decision-not-persisted", "step %d (%s): a decision for height %d, at or above every height ever started or decided, was learnt but the stored highest instance is %v", step, what, mustHold, cur)
 		}
 		return nil
+	}
+
+	doDuty := func(step int, slot uint64) *prog.Result {
+		err := e.nd.run.StartNewDuty(logger, dutyFor(e.share, slot))
+		e.logf("%d: StartNewDuty(slot %d) -> %v   [floor %s]", step, slot, err, floorStr(hasFloor, floor))
+		if slot == 0 {
+			cls("slot-0-duty")
+		}
+		if restarted && slot <= restoredHeight {
+			res.NonTrivial = true
+			cls("rerun-attempt-after-restart")
+		}
+		if err == nil {
+			if atOrBelow(slot) {
+				sig := "C15:duty-started-at-or-below-floor"
+				if restarted && slot <= restoredHeight {
+					sig = "C15:duty-rerun-after-restart"
+				}
+				return fail(res, e, sig, "step %d: StartNewDuty for slot %d succeeded although slot %d was already started or learnt decided (restored by restart: %v)", step, slot, floor, restarted)
+			}
+			cls("duty-accepted")
+			if everDecided && slot <= everDecidedMax {
+				// accepted by the reference model (the floor after a restart is what was persisted), counted only
+				cls("obs:duty-accepted-at-height-learnt-decided-before-a-restart")
+			}
+			raise(slot)
+		} else if atOrBelow(slot) {
+			cls("duty-refused-at-or-below")
+		} else {
+			cls("duty-refused-above-floor")
+		}
+		return judgeStore(step, "duty", -1)
 	}
 
 	for step, op := range p.Ops {
 		br := e.nd.run.GetBaseRunner()
 		switch op.K {
 		case "duty":
-			slot := resolve(op.D)
-			err := e.nd.run.StartNewDuty(logger, dutyFor(e.share, slot))
-			e.logf("%d: StartNewDuty(slot %d) -> %v   [floor %s]", step, slot, err, floorStr(hasFloor, floor))
-			if slot == 0 {
-				cls("slot-0-duty")
-			}
-			if restarted && slot <= restoredHeight {
-				res.NonTrivial = true
-				cls("rerun-attempt-after-restart")
-			}
-			if err == nil {
-				if atOrBelow(slot) {
-					sig := "C15:duty-started-at-or-below-floor"
-					if restarted && slot <= restoredHeight {
-						sig = "C15:duty-rerun-after-restart"
-					}
-					return fail(res, e, sig, "step %d: StartNewDuty for slot %d succeeded although slot %d was already started or learnt decided (restored by restart: %v)", step, slot, floor, restarted)
-				}
-				cls("duty-accepted")
-				raise(slot)
-			} else if atOrBelow(slot) {
-				cls("duty-refused-at-or-below")
-			} else {
-				cls("duty-refused-above-floor")
-			}
-			if r := judgeStore(step, "duty", -1); r != nil {
+			if r := doDuty(step, resolve(op.D)); r != nil {
 				return r
 			}
 
@@ -582,10 +604,11 @@ func run(p Prog) *prog.Result {
 				return res
 			}
 			must := int64(-1)
-			if !hasFloor || h >= floor {
+			if topmost(h) {
 				must = int64(h)
 			}
 			raise(h)
+			decidedAt(h)
 			if decidedRounds[h] == nil {
 				decidedRounds[h] = map[uint64]bool{}
 			}
@@ -635,10 +658,11 @@ func run(p Prog) *prog.Result {
 			must := int64(-1)
 			if decidedNow {
 				cls("local-decision")
-				if !hasFloor || h >= floor {
+				if topmost(h) {
 					must = int64(h)
 				}
 				raise(h)
+				decidedAt(h)
 				if decidedRounds[h] == nil {
 					decidedRounds[h] = map[uint64]bool{}
 				}
@@ -692,6 +716,19 @@ func run(p Prog) *prog.Result {
 				hasFloor, floor = false, 0
 				restarted = false
 			}
+			if op.Probe && after.present {
+				// replay an old duty right after the restart: slot relative to the restored height
+				ps := int64(after.height) + int64(op.D)
+				if ps < 0 || (ps == 0 && p.Base > 0) {
+					ps = int64(after.height)
+				}
+				if uint64(ps) > cursor {
+					cursor = uint64(ps)
+				}
+				if r := doDuty(step, uint64(ps)); r != nil {
+					return r
+				}
+			}
 
 		default:
 			panic("bad op " + op.K)
@@ -733,6 +770,8 @@ func genOp(t *rapid.T) Op {
 		op.Perm = rapid.Permutation(allOps).Draw(t, "perm")
 	case "restart":
 		op.Reopen = rapid.Bool().Draw(t, "reopen")
+		op.Probe = rapid.Bool().Draw(t, "probe")
+		op.D = rapid.SampledFrom([]int{-2, -1, 0, 0, 0, 1}).Draw(t, "d")
 	}
 	return op
 }
